@@ -465,8 +465,8 @@ func init() {
 				"server/packs", dbPkg, memPkg, "server/clients", "server/documents", "server/revisions", "server/rpc", "server/rpc/interceptors", "server/rpc/auth", "server/authz", "server/projects", psPkg}
 			// deliberate drops on the pinned tree (callee name → reason)
 			allowed := map[string]string{
-				"pkg/document/crdt.NewArray -> InsertAfter":        "inserting after the last position of a list built in the same loop: the anchor always exists",
-				"pkg/document/crdt.NewRGATreeList -> NewPrimitive": "the dummy head's value is the constant 0, which NewPrimitive always accepts",
+				"pkg/document/crdt.NewArray -> InsertAfter":                      "inserting after the last position of a list built in the same loop: the anchor always exists",
+				"pkg/document/crdt.NewRGATreeList -> NewPrimitive":               "the dummy head's value is the constant 0, which NewPrimitive always accepts",
 				"(*pkg/document/crdt.RGATreeSplit[V]).isolateRange -> splitNode": "documented precondition pieceStart <= from < to <= pieceEnd makes the offset valid (splitNode fails only on an out-of-range offset)",
 			}
 			n, dropped := 0, map[string][]string{}
@@ -533,6 +533,114 @@ func init() {
 			}
 			if len(dropped) == 0 {
 				x.hold("all error results read", "", fmt.Sprintf("%d calls", n))
+			}
+		}})
+}
+
+func init() {
+	register(&Rule{ID: "U16", Min: 6, Text: "text lengths are UTF-16 code units everywhere in the model: in pkg/document (crdt, operations, json) and api/converter a string is converted to []rune only to feed utf16.Encode (never counted as runes, utf8.RuneCount* is not used), and the byte length len(s) of a string that is text content (a field or accessor named value/content/Value/Content of a text, tree-text or span type) is never used as a length or offset — offsets computed in two different units agree on ASCII and silently disagree on everything else",
+		Run: func(x *Ctx) {
+			pkgs := []string{crdtPkg, opsPkg, "pkg/document/json", convPkg, docPkg}
+			nConv, nLen := 0, 0
+			cnt := map[string]int{}
+			for _, fn := range x.P.FuncsIn(pkgs...) {
+				if o := fn.Origin(); o != nil && o != fn {
+					continue
+				}
+				for _, b := range fn.Blocks {
+					for _, ins := range b.Instrs {
+						switch t := ins.(type) {
+						case *ssa.Convert:
+							// string → []rune
+							sl, isSl := t.Type().Underlying().(*types.Slice)
+							sb, isStr := t.X.Type().Underlying().(*types.Basic)
+							if !isSl || !isStr || sb.Info()&types.IsString == 0 {
+								continue
+							}
+							if eb, ok := sl.Elem().Underlying().(*types.Basic); !ok || eb.Kind() != types.Int32 {
+								continue
+							}
+							nConv++
+							cnt[prog.FnName(fn)]++
+							bad := ""
+							for _, r := range *t.Referrers() {
+								if _, dbg := r.(*ssa.DebugRef); dbg {
+									continue
+								}
+								c, isCall := r.(*ssa.Call)
+								if isCall && prog.CallObj(c) != nil && prog.CallObj(c).FullName() == "unicode/utf16.Encode" {
+									continue
+								}
+								bad = r.String()
+							}
+							x.check(bad == "", fmt.Sprintf("func=%s rune-conversion#%d only-for-utf16", prog.FnName(fn), cnt[prog.FnName(fn)]), x.pos(t),
+								"the runes only feed utf16.Encode", "a string is converted to []rune and used as "+bad+" instead of going through utf16.Encode: the length/offset is in code points, not in the UTF-16 units every position of the text model is measured in")
+						case *ssa.Call:
+							if o := prog.CallObj(t); o != nil && (o.FullName() == "unicode/utf8.RuneCountInString" || o.FullName() == "unicode/utf8.RuneCount") {
+								cnt[prog.FnName(fn)+"/rc"]++
+								x.fail(fmt.Sprintf("func=%s rune-count#%d", prog.FnName(fn), cnt[prog.FnName(fn)+"/rc"]), x.pos(t),
+									"a length is counted in code points ("+o.Name()+"): positions of the text model are UTF-16 units, so any character outside the BMP shifts everything after it")
+								continue
+							}
+							bi, ok := t.Call.Value.(*ssa.Builtin)
+							if !ok || bi.Name() != "len" {
+								continue
+							}
+							a := t.Call.Args[0]
+							sb, isStr := a.Type().Underlying().(*types.Basic)
+							if !isStr || sb.Info()&types.IsString == 0 {
+								continue
+							}
+							// text content? a load of a field / a call of an accessor named value/content
+							name := ""
+							if f := prog.LoadedField(a); f != nil {
+								name = f.Name()
+							} else if c, isC := prog.Strip(a).(*ssa.Call); isC {
+								if c.Call.IsInvoke() {
+									name = c.Call.Method.Name()
+								} else if o := prog.CallObj(c); o != nil {
+									name = o.Name()
+								}
+							}
+							ln := strings.ToLower(name)
+							if ln != "value" && ln != "content" {
+								continue
+							}
+							if fn.Name() == "DataSize" {
+								// resource metering (approximate bytes held), not a position
+								continue
+							}
+							// used only in an emptiness test (== 0 / > 0)?
+							onlyEmpty := true
+							for _, r := range *t.Referrers() {
+								if _, dbg := r.(*ssa.DebugRef); dbg {
+									continue
+								}
+								bo, isB := r.(*ssa.BinOp)
+								if !isB {
+									onlyEmpty = false
+									continue
+								}
+								other := bo.Y
+								if other == ssa.Value(t) {
+									other = bo.X
+								}
+								if z, isZ := prog.IntConst(other); !isZ || z != 0 {
+									onlyEmpty = false
+								}
+							}
+							nLen++
+							cnt[prog.FnName(fn)+"/len"]++
+							x.check(onlyEmpty, fmt.Sprintf("func=%s byte-length-of-%s#%d", prog.FnName(fn), name, cnt[prog.FnName(fn)+"/len"]), x.pos(t),
+								"only tested for emptiness", "the byte length of text content ("+name+") is used as a length or offset: positions in the text model are UTF-16 units, so any non-ASCII text makes the two disagree")
+						}
+					}
+				}
+			}
+			x.C.Count("string→[]rune conversions in the model", nConv)
+			x.C.Count("byte lengths of text content", nLen)
+			if nConv < 6 {
+				x.C.Vacuous(x.id()+" rune conversions", nConv, 6)
 			}
 		}})
 }
